@@ -15,6 +15,8 @@ func main() {
 		cmdChaos(os.Args[2:])
 	case "codec":
 		cmdCodec(os.Args[2:])
+	case "client":
+		cmdClient(os.Args[2:])
 	default:
 		fmt.Fprintln(os.Stderr, "unknown command", os.Args[1])
 		os.Exit(2)
